@@ -310,7 +310,7 @@ class Encoder(Coder):
                 values[idx] = value
 
             min_value, max_value = state.minmax(values)
-            nbits_diff = nbits_for_uint(max_value - min_value + 1)
+            nbits_diff = nbits_for_uint(max_value - min_value)
             # Now subtract the minimum from the values
             for idx, value in enumerate(values):
                 if value is None:
@@ -393,7 +393,7 @@ class Encoder(Coder):
             nbits_diff = 0
         else:
             min_value, max_value = state.minmax(values)
-            nbits_diff = nbits_for_uint(max_value - min_value + 1)
+            nbits_diff = nbits_for_uint(max_value - min_value)
             # Subtract the minimum from the values
             for idx, value in enumerate(values):
                 if value is None:
